@@ -30,7 +30,7 @@ impl Compiler {
 //@GHOST after="self.compile_statement(s)?;" proof { lemma_gen_post_trans(*old(self), sb, *self, false, true); }
 //@GHOST before="self.symbols.leave_scope();" let ghost s_end = *self;
 //@GHOST after="self.symbols.leave_scope();" proof { lemma_gen_post_same(s_end, *self); lemma_gen_post_trans(*old(self), s_end, *self, false, false); lemma_gen_post_upgrade(*old(self), *self); }
-//@LOOP 1 invariant sym_globals_kept(old(self).symbols, self.symbols), hstep(old(self).height@, self.height@, 0), gen_post(*old(self), *self, false), gen_inv(*self), stmts@.len() > 0, is_prefix(old(self).instructions@, self.instructions@), self.log@.len() == old(self).log@.len() + __it.index@, forall|i: int| 0 <= i < old(self).log@.len() ==> #[trigger] self.log@[i] == old(self).log@[i], __it.index@ == 0 ==> self.instructions@ == old(self).instructions@, __it.index@ > 0 ==> self.log@[old(self).log@.len() as int].start == old(self).instructions@.len() && self.log@[self.log@.len() - 1].end == self.instructions@.len(), forall|j: int| 0 <= j < __it.index@ - 1 ==> #[trigger] self.log@[old(self).log@.len() + j].end == self.log@[old(self).log@.len() + j + 1].start, sym_depth(self.symbols) == sym_depth(old(self).symbols) + 1, sym_contexts(self.symbols) == sym_contexts(old(self).symbols), sym_outer(self.symbols) == sym_outer(old(self).symbols), __it.index@ > 0 ==> self.instructions@.len() > old(self).instructions@.len(), forall|j: int| 0 <= j < __it.index@ ==> #[trigger] self.log@[old(self).log@.len() + j].what == LogWhat::S(stmts@[j]) && self.log@[old(self).log@.len() + j].depth == sym_depth(old(self).symbols) + 1 && self.log@[old(self).log@.len() + j].contexts == sym_contexts(old(self).symbols),
+//@LOOP 1 invariant sym_globals_kept(old(self).symbols, self.symbols), hstep(old(self).height@, self.height@, 0), gen_post(*old(self), *self, false), gen_inv(*self), stmts@.len() > 0, is_prefix(old(self).instructions@, self.instructions@), self.log@.len() == old(self).log@.len() + __it.index@, forall|i: int| 0 <= i < old(self).log@.len() ==> #[trigger] self.log@[i] == old(self).log@[i], __it.index@ == 0 ==> self.instructions@ == old(self).instructions@, __it.index@ > 0 ==> self.log@[old(self).log@.len() as int].start == old(self).instructions@.len() && self.log@[self.log@.len() - 1].end == self.instructions@.len(), forall|j: int| 0 <= j < __it.index@ - 1 ==> #[trigger] self.log@[old(self).log@.len() + j].end == self.log@[old(self).log@.len() + j + 1].start, sym_depth(self.symbols) == sym_depth(old(self).symbols) + 1, sym_contexts(self.symbols) == sym_contexts(old(self).symbols), sym_outer(self.symbols) == sym_outer(old(self).symbols), sym_outer_sizes(self.symbols) == sym_outer_sizes(old(self).symbols), __it.index@ > 0 ==> self.instructions@.len() > old(self).instructions@.len(), forall|j: int| 0 <= j < __it.index@ ==> #[trigger] self.log@[old(self).log@.len() + j].what == LogWhat::S(stmts@[j]) && self.log@[old(self).log@.len() + j].depth == sym_depth(old(self).symbols) + 1 && self.log@[old(self).log@.len() + j].contexts == sym_contexts(old(self).symbols),
 //@BODY file=compiler.rs fn=compile_block_statement impl=Compiler sig="fn compile_block_statement(&mut self, stmts: &[Stmt]) -> Result<(), Error>" rules="R1;R4;R8[for s in stmts {=>for s in __it: stmts {]"
     }
 
@@ -75,7 +75,7 @@ impl Compiler {
 //@GHOST after="let pos_start_function = self.instructions.len();" proof { /* a function body is a flow of its own, entered by Call with an empty operand area */ self.height = Ghost(H::At(0)); } let ghost s_start = *self;
 //@GHOST before="result?;" proof { self.loop_h = Ghost(old(self).loop_h@); } let ghost s_body = *self;
 //@GHOST after="self.change_jump_operand_at(pos_jump, to_u16(self.instructions.len())?);" proof { /* the Jump over the body lands HERE; nothing may fall out of the end of the body */ self.height = Ghost(hjoin(self.height@, old(self).height@)); } let ghost s_patched = *self;
-//@LOOP 1 invariant sym_globals_kept(old(self).symbols, self.symbols), sym_outer(s_ctx.symbols) == sym_outer(old(self).symbols).push(sym_depth(old(self).symbols)), sym_outer(self.symbols) == sym_outer(s_ctx.symbols), s_ctx.log@ == old(self).log@, s_ctx.instructions@.len() == old(self).instructions@.len() + 3, s_ctx.instructions@[old(self).instructions@.len() as int] == opcode_byte(OpCode::Jump), is_prefix(old(self).instructions@, s_ctx.instructions@), sym_contexts(s_ctx.symbols) == sym_contexts(old(self).symbols) + 1, s_ctx.loop_contexts == old(self).loop_contexts, gen_inv(s_ctx), s_ctx.last_instruction == Some(OpCode::Jump), pos_jump == old(self).instructions@.len(), forall|i: int| 0 <= i < old(self).constants@.len() ==> s_ctx.constants@[i] == old(self).constants@[i], old(self).constants@.len() <= s_ctx.constants@.len(), self.instructions == s_ctx.instructions, self.last_instruction == s_ctx.last_instruction, self.loop_contexts == s_ctx.loop_contexts, self.log@ == s_ctx.log@, self.constants == s_ctx.constants, sym_contexts(self.symbols) == sym_contexts(s_ctx.symbols), sym_depth(self.symbols) == 1, sym_wf(self.symbols), sym_params(self.symbols).len() == __it.index@, forall|j: int| 0 <= j < __it.index@ ==> #[trigger] sym_params(self.symbols)[j] == parameters@[j]@,
+//@LOOP 1 invariant sym_globals_kept(old(self).symbols, self.symbols), sym_outer(s_ctx.symbols) == sym_outer(old(self).symbols).push(sym_depth(old(self).symbols)), sym_outer(self.symbols) == sym_outer(s_ctx.symbols), sym_outer_sizes(s_ctx.symbols) == sym_outer_sizes(old(self).symbols).push(sym_max_size(s_def.symbols) as int), sym_outer_sizes(self.symbols) == sym_outer_sizes(s_ctx.symbols), sym_outer_sizes(s_def.symbols) == sym_outer_sizes(old(self).symbols), s_ctx.log@ == old(self).log@, s_ctx.instructions@.len() == old(self).instructions@.len() + 3, s_ctx.instructions@[old(self).instructions@.len() as int] == opcode_byte(OpCode::Jump), is_prefix(old(self).instructions@, s_ctx.instructions@), sym_contexts(s_ctx.symbols) == sym_contexts(old(self).symbols) + 1, s_ctx.loop_contexts == old(self).loop_contexts, gen_inv(s_ctx), s_ctx.last_instruction == Some(OpCode::Jump), pos_jump == old(self).instructions@.len(), forall|i: int| 0 <= i < old(self).constants@.len() ==> s_ctx.constants@[i] == old(self).constants@[i], old(self).constants@.len() <= s_ctx.constants@.len(), self.instructions == s_ctx.instructions, self.last_instruction == s_ctx.last_instruction, self.loop_contexts == s_ctx.loop_contexts, self.log@ == s_ctx.log@, self.constants == s_ctx.constants, sym_contexts(self.symbols) == sym_contexts(s_ctx.symbols), sym_depth(self.symbols) == 1, sym_wf(self.symbols), sym_params(self.symbols).len() == __it.index@, forall|j: int| 0 <= j < __it.index@ ==> #[trigger] sym_params(self.symbols)[j] == parameters@[j]@,
 //@ARM file=compiler.rs fn=compile_expression impl=Compiler arm="Expr::Function" rules="R1;R4;R11;R8[for p in parameters {=>for p in __it: parameters {]"
         proof {
             let code = self.instructions@;
@@ -109,6 +109,10 @@ impl Compiler {
             assert(sym_outer(s_body.symbols) == sym_outer(s_start.symbols));
             assert(sym_outer(s_patched.symbols) == sym_outer(s_start.symbols));
             assert(sym_outer(self.symbols) =~= sym_outer(old(self).symbols));
+            assert(sym_outer_sizes(s_start.symbols) == sym_outer_sizes(old(self).symbols).push(sym_max_size(s_def.symbols) as int));
+            assert(sym_outer_sizes(s_body.symbols) == sym_outer_sizes(s_start.symbols));
+            assert(sym_outer_sizes(s_patched.symbols) == sym_outer_sizes(s_start.symbols));
+            assert(sym_outer_sizes(self.symbols) =~= sym_outer_sizes(old(self).symbols));
             assert(sym_depth(self.symbols) == sym_depth(old(self).symbols));
             assert(old(self).constants@.len() <= s_body.constants@.len());
             assert forall|i: int| 0 <= i < old(self).constants@.len() implies self.constants@[i] == old(self).constants@[i] by {
